@@ -156,11 +156,12 @@ def r53(ctx):
     cls = ctx.tree.cls(REPEX, "REPEX_state")
     methods = {s.name: s for s in cls.body if isinstance(s, FUNC)}
     c03.r38(Proxy(ctx), methods)
-    # sort_trajstate filters its candidates by the busy paths
+    # sort_trajstate filters its candidates by the busy paths (membership test against locked_paths(), any naming)
+    from .shared import RuleProxy, whole_busy_set
     f = methods["sort_trajstate"]
-    txt = ast.unparse(f)
-    if "locked_paths()" in txt and "not in locks" in txt.replace("not in locked", "not in locks"):
-        ctx.ok("R-5.3", f, "sort_trajstate excludes busy paths (path_number not in locked_paths()) from the swap candidates")
+    covered = whole_busy_set(RuleProxy(ctx, "R-5.3"), "R-5.3")
+    if "sort_trajstate" in covered:
+        ctx.ok("R-5.3", f, "sort_trajstate excludes busy paths (membership test against locked_paths()) from the swap candidates")
     else:
         ctx.bad("R-5.3", f, "sort_trajstate does not exclude busy paths from its swap candidates: a path held by an in-flight job can be moved to an idle slot")
 
@@ -297,6 +298,7 @@ def run(ctx):
 
 
 VARIANTS = [
+    K("c05-keep-sort-busy-renamed", REPEX, "            locks = self.locked_paths()\n            zero_idx", "            busy = self.locked_paths()\n            zero_idx", also=[(REPEX, "                j if self._trajs[i].path_number not in locks else 0\n", "                j if self._trajs[i].path_number not in busy else 0\n")]),
     B("c05-sort-drops-last-busy-path", REPEX, "            locks = self.locked_paths()\n            zero_idx", "            locks = self.locked_paths()[:-1]\n            zero_idx", "R-5.6", control=True, why="seeded C03_d"),
     B("c05-only-minus-guard-off-by-one", REPEX, "        if len(sorted_non_locked_T) <= offset:\n            equal_pos = True", "        if len(sorted_non_locked_T) < offset:\n            equal_pos = True", "R-5.5", control=True, why="seeded C05_c"),
     K("c05-keep-only-minus-guard-flipped", REPEX, "        if len(sorted_non_locked_T) <= offset:\n            equal_pos = True", "        if offset >= len(sorted_non_locked_T):\n            equal_pos = True"),
